@@ -121,6 +121,9 @@ where
             poly_len,
             "n cannot be converted to f64: aborting"
         );
+        // The zero polynomial has an empty coefficient vector; it still needs a
+        // (1 x 1, zero-padded) matrix.
+        let poly_len = core::cmp::max(poly_len, 1);
         let t = calculate_t::<F>(self.sec_param(), self.distance(), poly_len).unwrap();
         let n = 1 << log2((ceil_div(2 * poly_len, t) as f64).sqrt().ceil() as usize);
         let m = ceil_div(poly_len, n);
